@@ -22,6 +22,8 @@ mod refm;
 mod c15;
 mod c16;
 mod c17;
+mod c18;
+mod bdl;
 mod c20;
 
 use common::{Ctx, Tier};
@@ -65,6 +67,7 @@ fn main() {
         ("C15", c15::run),
         ("C16", c16::run),
         ("C17", c17::run),
+        ("C18", c18::run),
         ("C20", c20::run),
     ];
     let code = match checks.iter().find(|c| c.0 == id) {
